@@ -61,6 +61,8 @@ impl Method {
 /// `other` stands for scheme and authority (whatever else identifies the URI)
 pub struct Uri { pub ghost path: Seq<u8>, pub ghost query: Option<Seq<u8>>, pub ghost other: int, pub ghost built_from: Option<Seq<u8>> }
 pub struct UriBuilder { pub ghost pq: Option<Seq<u8>> }
+/// which path-and-query texts http's Uri builder accepts (uninterpreted: character set and the 65 534 byte limit are http's business)
+pub uninterp spec fn uri_accepts(pq: Seq<u8>) -> bool;
 #[derive(Debug)]
 pub struct HttpError;
 impl std::fmt::Display for HttpError { #[verifier::external_body] fn fmt(&self, f: &mut std::fmt::Formatter<'_>) -> std::fmt::Result { unimplemented!() } }
@@ -81,7 +83,9 @@ impl UriBuilder {
     /// given path and query (no scheme, no authority: `other == 0`)
     #[verifier::external_body]
     pub fn build(self) -> (r: Result<Uri, HttpError>)
-        ensures r is Ok && self.pq is Some ==> {
+        ensures
+            self.pq is Some ==> (r is Ok <==> uri_accepts(self.pq->Some_0)),
+            r is Ok && self.pq is Some ==> {
             let pq = self.pq->Some_0;
             &&& r->Ok_0.other == 0
             &&& r->Ok_0.built_from == Some(pq)
@@ -96,11 +100,26 @@ pub struct Bytes { pub ghost data: Seq<u8> }
 impl Bytes {
     #[verifier::external_body]
     pub fn as_ref(&self) -> (r: &[u8]) ensures r@ == self.data { unimplemented!() }
-    /// `Bytes::from(&'static str)`
-    #[verifier::external_body]
-    pub fn from(s: &'static str) -> (r: Bytes) ensures r.data == s.spec_bytes() { unimplemented!() }
     #[verifier::external_body]
     pub fn new() -> (r: Bytes) ensures r.data == Seq::<u8>::empty() { unimplemented!() }
+}
+
+/// `Bytes::from(&'static str)` and `Bytes::from(Vec<u8>)`: the bytes of the argument
+impl vstd::std_specs::convert::FromSpecImpl<&'static str> for Bytes {
+    open spec fn obeys_from_spec() -> bool { true }
+    open spec fn from_spec(v: &'static str) -> Self { Bytes { data: v.spec_bytes() } }
+}
+impl From<&'static str> for Bytes {
+    #[verifier::external_body]
+    fn from(s: &'static str) -> (r: Bytes) { unimplemented!() }
+}
+impl vstd::std_specs::convert::FromSpecImpl<Vec<u8>> for Bytes {
+    open spec fn obeys_from_spec() -> bool { true }
+    open spec fn from_spec(v: Vec<u8>) -> Self { Bytes { data: v@ } }
+}
+impl From<Vec<u8>> for Bytes {
+    #[verifier::external_body]
+    fn from(v: Vec<u8>) -> (r: Bytes) { unimplemented!() }
 }
 
 /// http::Request<B>
